@@ -1064,19 +1064,36 @@ Proof.
     rewrite Hinp2, Hl1. cbn [bbind]. eexists. split; [reflexivity|]. cbn [od_defs]. exact Hl2.
 Qed.
 
+
 (** ** the whole parser on a rendered document *)
+Lemma parse_with_of_runs f start inp inp' i' ps :
+  runs G true ANon (Call start) inp 0 (Ok (inp', i', ps)) -> parse_with G f start inp <> OutOfFuel -> parse_with G f start inp = Ok ps.
+Proof.
+  intros Hrun Hnf. unfold parse_with in *.
+  destruct (Hrun f) as [E|E].
+  - rewrite E in Hnf. exfalso. apply Hnf. reflexivity.
+  - rewrite E. reflexivity.
+Qed.
+Lemma parse_pairs_of_runs start inp inp' i' ps :
+  runs G true ANon (Call start) inp 0 (Ok (inp', i', ps)) -> parse_pairs start inp = Ok ps.
+Proof.
+  intros Hrun. pose proof (parse_pairs_never_out_of_fuel start inp) as Hnf.
+  rewrite parse_pairs_unfold in *. apply (parse_with_of_runs _ _ _ _ _ _ Hrun Hnf).
+Qed.
+
+(** parse_render for executable documents: for every well-formed rendering (leading trivia, then anonymous
+    queries, operations with optional name / variable definitions / directives, fragment definitions, each followed by
+    its trivia; selection sets, arguments and values of any depth inside; whitespace trivia in every gap) the whole
+    model parser -- pest parse, validation pass, builder -- returns a document whose position-erased form is the
+    erasure of the rendering *)
 Theorem parse_render_operation_document : forall g0 defs file, wf_doc g0 defs = true ->
   exists doc, parse_operation_document file (doc_text g0 defs) = POk doc
               /\ map def_erase (od_defs doc) = map erase_def defs.
 Proof.
   intros g0 defs file Hwf. destruct (document_runs g0 defs Hwf) as [T [Hrun [Hval Hbuild]]].
   destruct (Hbuild file) as [doc [Hb He]]. exists doc. split; [|exact He].
-  set (inp := doc_text g0 defs) in *.
-  assert (Hp : parse_pairs R_ExecutableDocument inp = Ok [T]).
-  { pose proof (parse_pairs_never_out_of_fuel R_ExecutableDocument inp) as Hnf.
-    rewrite parse_pairs_unfold in *. unfold parse_with in *.
-    destruct (Hrun (default_fuel inp)) as [E|E]; rewrite E in *; [exfalso; apply Hnf; reflexivity|reflexivity]. }
-  unfold parse_operation_document. rewrite Hp. unfold after_validation. rewrite Hval, Hb. reflexivity.
+  unfold parse_operation_document. rewrite (parse_pairs_of_runs _ _ _ _ _ Hrun).
+  unfold after_validation. rewrite Hval, Hb. reflexivity.
 Qed.
 
 (** a document inside the fragment: an anonymous query, a named query with variables and directives, a fragment *)
@@ -1086,4 +1103,10 @@ Definition ex_doc : list rdef :=
        [RDir1 [] (s "e") [] [] [((s "x", [], [32]), (RStr (s "hi"), []))] [32]] ex_ss [10];
    RFrag [32] (s "F") [32] [32] (s "T") [32] [] (RSS [32] [RSpread [] (s "G") [32] []]) []].
 Example ex_doc_wf : wf_doc [32] ex_doc = true.
+Proof. vm_compute. reflexivity. Qed.
+Example ex_doc_text : doc_text [32] ex_doc = s " {a}
+query Q($v: Int! = 1@d) @e(x: ""hi"") { a: b(x: 1) @d { c }
+...F @e
+... on T {d},...@f{e}}
+fragment F on T { ...G }".
 Proof. vm_compute. reflexivity. Qed.
